@@ -202,6 +202,15 @@ F("C19", "setter-wrong-formula", U + "constant.py", "set_sig_figures", "FLOAT_EP
 F("C19", "setter-sign-error", U + "constant.py", "set_eps", "SIG_FIGURES = round(log10(1 / eps))", "SIG_FIGURES = round(log10(eps))", rule="R19.2")
 F("C19", "setter-missing-global-decl", U + "constant.py", "set_eps", "global FLOAT_EPS, SIG_FIGURES", "global FLOAT_EPS", rule="R19.2")
 F("C19", "default-drift", U + "constant.py", "set_eps", "def set_eps(eps=1e-10):", "def set_eps(eps=1e-09):", rule="R19.2")
+F("C19", "exact-zero-denominator", INTER, "inter_line_plane", "    elif parallel(l, p):\n        return None",
+  "    elif p.n * l.dv == 0:\n        return None", rule="R19.5")
+F("C19", "exact-truthiness-of-length", G + "segment.py", "Segment.__init__", "        if a == b:", "        if not Vector(a, b).length():", rule="R19.5")
+F("C19", "exact-coordinate-compare", G + "point.py", "Point.__eq__", "return abs(self.x - other.x) < get_eps() and", "return self.x == other.x and", rule="R19.5")
+CAT["C19"].pop()  # (an `==` inside a return expression is not a decision position of R19.5; C08 covers Point.__eq__)
+N("C19", "tolerant-zero-denominator", INTER, "inter_line_plane", "    elif parallel(l, p):\n        return None",
+  "    elif null(p.n * l.dv):\n        return None")
+N("C19", "integer-count-compare", INTER, "inter_line_plane", "    elif parallel(l, p):\n        return None",
+  "    elif len([l, p]) == 0 or parallel(l, p):\n        return None")
 N("C19", "getter-into-local", G + "point.py", "Point.__eq__", "    if isinstance(other, Point):\n        return abs(self.x - other.x) < get_eps() and",
   "    if isinstance(other, Point):\n        eps = get_eps()\n        return abs(self.x - other.x) < eps and")
 N("C19", "precision-into-local", G + "plane.py", "Plane.oriented_hash",
@@ -302,7 +311,15 @@ F("C10", "mixed-pair-computed-twice", DIST, "distance",
   "    elif isinstance(a, Plane) and isinstance(b, Point):\n        return distance(b, a)",
   "    elif isinstance(a, Plane) and isinstance(b, Point):\n        return abs((b.pv() - a.p.pv()) * a.n)", rule="R10.1")
 N("C10", "folded-angle-guard", DIST, "distance", "        if a.dv.parallel(b.dv):", "        if parallel(a, b):")
-CAT["C10"].pop()  # calc.parallel(a, b) on lines is recognised only in the method form; not part of the idiom table
+F("C10", "exact-dot-truthiness", DIST, "distance", "    elif isinstance(a, Line) and isinstance(b, Plane):\n        if parallel(a, b):",
+  "    elif isinstance(a, Line) and isinstance(b, Plane):\n        if not a.dv * b.n:", rule="R10.6",
+  note="a dot product of 1e-17 for an exactly parallel line in general orientation")
+F("C10", "exact-dot-equals-zero", DIST, "distance", "    elif isinstance(a, Line) and isinstance(b, Plane):\n        if parallel(a, b):",
+  "    elif isinstance(a, Line) and isinstance(b, Plane):\n        if a.dv * b.n == 0:", rule="R10.6")
+F("C10", "exact-dot-through-local", DIST, "distance", "    elif isinstance(a, Line) and isinstance(b, Plane):\n        if parallel(a, b):",
+  "    elif isinstance(a, Line) and isinstance(b, Plane):\n        slope = a.dv * b.n\n        if slope == 0.0:", rule="R10.6")
+N("C10", "tolerant-dot-test", DIST, "distance", "    elif isinstance(a, Line) and isinstance(b, Plane):\n        if parallel(a, b):",
+  "    elif isinstance(a, Line) and isinstance(b, Plane):\n        if null(a.dv * b.n):")
 N("C10", "guard-receiver-swapped", DIST, "distance", "        if a.dv.parallel(b.dv):", "        if b.dv.parallel(a.dv):")
 N("C10", "abs-via-local", DIST, "distance", "        return abs((b.sv - a.sv) * normale)", "        d = abs((b.sv - a.sv) * normale)\n        return d")
 N("C10", "point-point-method", DIST, "distance", "        return Vector(a, b).length()", "        return a.distance(b)")
@@ -697,6 +714,22 @@ CAT["C06"].pop()  # textual rename of a one-letter name also hits other identifi
 N("C06", "segment-length-via-vector", G + "segment.py", "Segment.length", "return self.start_point.distance(self.end_point)", "return Vector(self.start_point, self.end_point).length()")
 N("C06", "area-accumulator-renamed", PH, "ConvexPolyhedron.area", "    a = 0\n    for polygon in self.convex_polygons:\n        a += polygon.area()\n    return a",
   "    total = 0\n    for face in self.convex_polygons:\n        total += face.area()\n    return total")
+F("C06", "volume-fn-signed-projection", C + "volume.py", "volume", "height = distance(arg.point, arg.convex_polygon.plane)",
+  "height = (arg.convex_polygon.plane.p.pv() - arg.point.pv()) * arg.convex_polygon.plane.n", rule="R6.4",
+  note="signed height: negative for an apex on the positive side of the base")
+N("C06", "volume-fn-abs-projection", C + "volume.py", None, "from .distance import distance\n", "from .distance import distance\nfrom ..utils.vector import Vector\n")
+CAT["C06"].pop()
+N("C06", "volume-fn-sum-over-faces", C + "volume.py", "volume",
+  "        total_volume = 0\n        for pyramid in arg.pyramid_set:\n            total_volume += volume(pyramid)\n        return total_volume",
+  "        return sum((1 / 3 * distance(arg.center_point, face.plane) * face.area() for face in arg.convex_polygons))")
+F("C06", "volume-fn-sum-over-faces-wrong-apex", C + "volume.py", "volume",
+  "        total_volume = 0\n        for pyramid in arg.pyramid_set:\n            total_volume += volume(pyramid)\n        return total_volume",
+  "        return sum((1 / 3 * distance(arg.convex_polygons[0].center_point, face.plane) * face.area() for face in arg.convex_polygons))",
+  rule="R6.3", note="apex on a face: not the pyramids of pyramid_set")
+F("C06", "volume-fn-sum-over-faces-filtered", C + "volume.py", "volume",
+  "        total_volume = 0\n        for pyramid in arg.pyramid_set:\n            total_volume += volume(pyramid)\n        return total_volume",
+  "        return sum((1 / 3 * distance(arg.center_point, face.plane) * face.area() for face in arg.convex_polygons if face.area() > 1))",
+  rule="R6.3")
 N("C06", "volume-fn-third-float", C + "volume.py", "volume", "return 1 / 3 * height * arg.convex_polygon.area()", "return height * arg.convex_polygon.area() / 3")
 
 
@@ -741,22 +774,54 @@ FB("C11", "normalised-pair-wrong-predicate", "neutral-M6", C + "angle.py", "para
 # too, so that the rule cannot pass vacuously, cf. CONTROLS below)
 F("C01", "control-exact-numeric-rejection", INTER, "inter_plane_halfline",
   "    inter_p_l = intersection(a, b.line)\n",
-  "    if a.n * Vector(a.p, b.point) * (a.n * b.vector) > 0:\n        return None\n    inter_p_l = intersection(a, b.line)\n", rule="R1.4")
+  "    if (a.n * b.point.pv() - a.n * a.p.pv()) * (a.n * b.vector) > 0:\n        return None\n    inter_p_l = intersection(a, b.line)\n", rule="R1.4")
+F("C02", "hits-keyed-by-raw-coordinates", INTER, "inter_line_convexpolyhedron",
+  "    set_point = set()\n    for cpg in cph.convex_polygons:\n        inter_cpg_l = intersection(l, cpg)\n        if isinstance(inter_cpg_l, Segment):\n            return inter_cpg_l\n        elif isinstance(inter_cpg_l, Point):\n            set_point.add(inter_cpg_l)\n        elif inter_cpg_l is None:\n            pass\n        else:\n            raise TypeError('Bug detected! please contact the author')\n    if len(set_point) == 0:\n        return None\n    elif len(set_point) == 1:\n        return list(set_point)[0]\n    elif len(set_point) >= 2:\n        list_point = list(set_point)\n        return get_segment_from_point_list(list_point)",
+  "    by_position = {}\n    for cpg in cph.convex_polygons:\n        inter_cpg_l = intersection(l, cpg)\n        if isinstance(inter_cpg_l, Segment):\n            return inter_cpg_l\n        elif isinstance(inter_cpg_l, Point):\n            by_position.setdefault(tuple(inter_cpg_l), inter_cpg_l)\n        elif inter_cpg_l is None:\n            pass\n        else:\n            raise TypeError('Bug detected! please contact the author')\n    list_point = list(by_position.values())\n    if len(list_point) == 0:\n        return None\n    elif len(list_point) == 1:\n        return list_point[0]\n    elif len(list_point) >= 2:\n        return get_segment_from_point_list(list_point)", rule="R2.6",
+  note="a vertex hit found from three faces differs by float noise: three points instead of one")
+F("C02", "hits-keyed-by-xyz-subscript", INTER, "inter_line_convexpolyhedron",
+  "    set_point = set()\n    for cpg in cph.convex_polygons:\n        inter_cpg_l = intersection(l, cpg)\n        if isinstance(inter_cpg_l, Segment):\n            return inter_cpg_l\n        elif isinstance(inter_cpg_l, Point):\n            set_point.add(inter_cpg_l)\n        elif inter_cpg_l is None:\n            pass\n        else:\n            raise TypeError('Bug detected! please contact the author')\n    if len(set_point) == 0:\n        return None\n    elif len(set_point) == 1:\n        return list(set_point)[0]\n    elif len(set_point) >= 2:\n        list_point = list(set_point)\n        return get_segment_from_point_list(list_point)",
+  "    by_position = {}\n    for cpg in cph.convex_polygons:\n        inter_cpg_l = intersection(l, cpg)\n        if isinstance(inter_cpg_l, Segment):\n            return inter_cpg_l\n        elif isinstance(inter_cpg_l, Point):\n            by_position[inter_cpg_l.x, inter_cpg_l.y, inter_cpg_l.z] = inter_cpg_l\n        elif inter_cpg_l is None:\n            pass\n        else:\n            raise TypeError('Bug detected! please contact the author')\n    list_point = list(by_position.values())\n    if len(list_point) == 0:\n        return None\n    elif len(list_point) == 1:\n        return list_point[0]\n    elif len(list_point) >= 2:\n        return get_segment_from_point_list(list_point)", rule="R2.6")
+F("C02", "hits-filtered-by-seen-coordinates", INTER, "inter_line_convexpolyhedron",
+  "    set_point = set()\n    for cpg in cph.convex_polygons:\n        inter_cpg_l = intersection(l, cpg)\n        if isinstance(inter_cpg_l, Segment):\n            return inter_cpg_l\n        elif isinstance(inter_cpg_l, Point):\n            set_point.add(inter_cpg_l)\n        elif inter_cpg_l is None:\n            pass\n        else:\n            raise TypeError('Bug detected! please contact the author')\n    if len(set_point) == 0:\n        return None\n    elif len(set_point) == 1:\n        return list(set_point)[0]\n    elif len(set_point) >= 2:\n        list_point = list(set_point)\n        return get_segment_from_point_list(list_point)",
+  "    seen = set()\n    list_point = []\n    for cpg in cph.convex_polygons:\n        inter_cpg_l = intersection(l, cpg)\n        if isinstance(inter_cpg_l, Segment):\n            return inter_cpg_l\n        elif isinstance(inter_cpg_l, Point):\n            if (inter_cpg_l.x, inter_cpg_l.y, inter_cpg_l.z) not in seen:\n                seen.add((inter_cpg_l.x, inter_cpg_l.y, inter_cpg_l.z))\n                list_point.append(inter_cpg_l)\n        elif inter_cpg_l is None:\n            pass\n        else:\n            raise TypeError('Bug detected! please contact the author')\n    if len(list_point) == 0:\n        return None\n    elif len(list_point) == 1:\n        return list_point[0]\n    elif len(list_point) >= 2:\n        return get_segment_from_point_list(list_point)", rule="R2.6")
+N("C02", "hits-keyed-by-the-point", INTER, "inter_line_convexpolyhedron",
+  "    set_point = set()\n    for cpg in cph.convex_polygons:\n        inter_cpg_l = intersection(l, cpg)\n        if isinstance(inter_cpg_l, Segment):\n            return inter_cpg_l\n        elif isinstance(inter_cpg_l, Point):\n            set_point.add(inter_cpg_l)\n        elif inter_cpg_l is None:\n            pass\n        else:\n            raise TypeError('Bug detected! please contact the author')\n    if len(set_point) == 0:\n        return None\n    elif len(set_point) == 1:\n        return list(set_point)[0]\n    elif len(set_point) >= 2:\n        list_point = list(set_point)\n        return get_segment_from_point_list(list_point)",
+  "    by_position = {}\n    for cpg in cph.convex_polygons:\n        inter_cpg_l = intersection(l, cpg)\n        if isinstance(inter_cpg_l, Segment):\n            return inter_cpg_l\n        elif isinstance(inter_cpg_l, Point):\n            by_position.setdefault(inter_cpg_l, inter_cpg_l)\n        elif inter_cpg_l is None:\n            pass\n        else:\n            raise TypeError('Bug detected! please contact the author')\n    list_point = list(by_position.values())\n    if len(list_point) == 0:\n        return None\n    elif len(list_point) == 1:\n        return list_point[0]\n    elif len(list_point) >= 2:\n        return get_segment_from_point_list(list_point)",
+  note="a dictionary keyed by the Point itself merges through the tolerant __eq__ / __hash__, like the set")
 F("C02", "control-exact-numeric-rejection", INTER, "inter_convexpolyhedron_halfline",
   "    inter_point_set = get_halfline_convexpolyhedron_intersection_point_set(h, cph)\n",
-  "    if Vector(h.point, cph.center_point) * h.vector < 0:\n        return None\n    inter_point_set = get_halfline_convexpolyhedron_intersection_point_set(h, cph)\n",
+  "    if (cph.center_point.pv() - h.point.pv()) * h.vector < 0:\n        return None\n    inter_point_set = get_halfline_convexpolyhedron_intersection_point_set(h, cph)\n",
   rule="R2.5")
 F("C03", "control-exact-numeric-rejection", INTER, "inter_convexpolygon_convexpolygon",
   "    inter_p_p = intersection(a.plane, b.plane)\n",
-  "    if Vector(a.center_point, b.center_point).length() > a.length() + b.length():\n        return None\n    inter_p_p = intersection(a.plane, b.plane)\n",
+  "    if (a.center_point.pv() - b.center_point.pv()).length() > a.length() + b.length():\n        return None\n    inter_p_p = intersection(a.plane, b.plane)\n",
   rule="R3.4")
 F("C12", "control-exact-numeric-rejection", INTER, "inter_plane_halfline",
   "    inter_p_l = intersection(a, b.line)\n",
-  "    if a.n * Vector(a.p, b.point) * (a.n * b.vector) > 0:\n        return None\n    inter_p_l = intersection(a, b.line)\n", rule="R12.3")
+  "    if (a.n * b.point.pv() - a.n * a.p.pv()) * (a.n * b.vector) > 0:\n        return None\n    inter_p_l = intersection(a, b.line)\n", rule="R12.3")
+
+F("C03", "crossings-keyed-by-raw-coordinates", INTER, "inter_convexpolygon_convexpolygon",
+  "        for seg in a.segments():\n            point_set = point_set.union(get_segment_convexpolygon_intersection_point_set(seg, b))\n        point_tuple = tuple(point_set)",
+  "        crossings = {}\n        for seg in a.segments():\n            for p in get_segment_convexpolygon_intersection_point_set(seg, b):\n                crossings[tuple(p)] = p\n        point_tuple = tuple(point_set) + tuple(crossings.values())",
+  rule="R3.5", note="an edge crossing that coincides with a shared vertex up to float noise appears twice")
+N("C03", "crossings-keyed-by-raw-coordinates-then-set", INTER, "inter_convexpolygon_convexpolygon",
+  "        for seg in a.segments():\n            point_set = point_set.union(get_segment_convexpolygon_intersection_point_set(seg, b))\n        point_tuple = tuple(point_set)",
+  "        crossings = {}\n        for seg in a.segments():\n            for p in get_segment_convexpolygon_intersection_point_set(seg, b):\n                crossings[tuple(p)] = p\n        point_tuple = tuple(point_set.union(set(crossings.values())))",
+  note="the dictionary's values are merged again by the tolerant hash")
+# the raw-coordinate identity map of C02 is also what R19.6 must report
+for _m in [m for m in CAT["C02"] if m.name in ("C02:hits-keyed-by-raw-coordinates", "C02:hits-keyed-by-the-point")]:
+    for _p, _r in (("C19", "R19.6"),):
+        if _m.kind == "fault":
+            F(_p, _m.name.split(":", 1)[1], _m.file, _m.func, _m.find, _m.replace, rule=_r, count=_m.count, note=_m.note)
+        else:
+            N(_p, _m.name.split(":", 1)[1], _m.file, _m.func, _m.find, _m.replace, count=_m.count, note=_m.note)
 
 CONTROLS = {
     "C01": ["C01:control-exact-numeric-rejection"],
-    "C02": ["C02:control-exact-numeric-rejection"],
-    "C03": ["C03:control-exact-numeric-rejection"],
+    "C02": ["C02:control-exact-numeric-rejection", "C02:hits-keyed-by-raw-coordinates"],
+    "C03": ["C03:control-exact-numeric-rejection", "C03:crossings-keyed-by-raw-coordinates"],
     "C12": ["C12:control-exact-numeric-rejection"],
+    "C10": ["C10:exact-dot-truthiness"],
+    "C19": ["C19:exact-zero-denominator", "C19:hits-keyed-by-raw-coordinates"],
 }
